@@ -182,6 +182,7 @@ func c14Worker(c *Ctx, job int) JobResult {
 	nthreads := len(j.sc.Threads)
 	unbounded := c.Thorough() && nthreads == 2 && len(j.sc.Threads[0])+len(j.sc.Threads[1]) <= 2
 	outcomes := map[string]bool{}
+	orders := map[string]bool{}
 	var sample any
 	for b := 0; ; b++ {
 		eff := b
@@ -194,6 +195,19 @@ func c14Worker(c *Ctx, job int) JobResult {
 		var found []ev.Violation
 		st := sched.Explore(run, eff, c.Deadline, 0, func(x *sched.Exec) bool {
 			outcomes[fmt.Sprint(obs.answers)] = true
+			if len(orders) < 200000 {
+				// order in which threads took write locks, mutexes and pool objects:
+				// distinct values show that the schedules really collided differently
+				var sb strings.Builder
+				for _, st := range x.S.Trace {
+					switch shim.OpKind(st & 0xff) {
+					case shim.OpWLock, shim.OpLock, shim.OpPoolGet:
+						sb.WriteByte(byte('0' + st>>8))
+						sb.WriteByte(byte('a' + st&0xff))
+					}
+				}
+				orders[sb.String()] = true
+			}
 			if vs := c14Check(j, exp, obs, x); len(vs) > 0 {
 				// replay determinism: the same schedule must fail identically twice more
 				for k := 0; k < 2; k++ {
@@ -239,6 +253,7 @@ func c14Worker(c *Ctx, job int) JobResult {
 		}
 	}
 	res.Counts["distinct_outcomes"] = int64(len(outcomes))
+	res.Counts["distinct_sync_orders"] = int64(len(orders))
 	if sample != nil {
 		res.Samples = []any{sample}
 	}
@@ -325,7 +340,7 @@ func init() {
 		var states int64
 		perJob := map[string]any{}
 		for i, r := range results {
-			perJob[jobs[i].name()] = map[string]any{"schedules": r.Counts["schedules"], "complete": r.Complete, "max_preemptions_completed": r.Extra["max_preemptions_completed"], "distinct_outcomes": r.Counts["distinct_outcomes"]}
+			perJob[jobs[i].name()] = map[string]any{"schedules": r.Counts["schedules"], "complete": r.Complete, "max_preemptions_completed": r.Extra["max_preemptions_completed"], "distinct_outcomes": r.Counts["distinct_outcomes"], "distinct_sync_orders": r.Counts["distinct_sync_orders"]}
 			if r.Err != "" {
 				panic(HarnessError(fmt.Sprintf("job %s: %s", jobs[i].name(), r.Err)))
 			}
